@@ -156,6 +156,33 @@ def run(tier):
                 report.fail({"site": "reactor", "kind": "order-dependent", "tokens": "+".join(sorted(t for _, t in ms))},
                             {"first_writing": first[0], "other_writing": w, "results": [first[1], o],
                              "problem": "the result depends on the order in which the modifications are written"})
+    # the long notation  <p>-O-<group>-<Sugar> / <p>-N-<group>-<Sugar>  names the same molecule as the compact token for
+    # every group that is carried by (or shares) the position's oxygen / nitrogen
+    fgs = {x.split("\x1e")[0]: x.split("\x1e")[1] for x in orc.drv.call("fgtokens").split("\x1f") if x and "\x1e" in x}
+    carried = sorted(t for t, smi in fgs.items() if t in toks and smi and smi[0] in "OCSP[" and not smi.startswith("Cl"))
+    ncarried = sorted(t for t, smi in fgs.items() if t in toks and smi and smi[0] == "N")
+    lf = []
+    for tok in (carried if tier == "thorough" else r.sample(carried, min(len(carried), 10)) + [t for t in ("P", "Lac", "Ole", "S", "Me") if t in carried]):
+        s_ = r.choice(["Glc", "Gal", "Man"])
+        p_ = r.choice(SUGARS[s_])
+        lf.append((f"{p_}-O-{tok}-{s_}", f"{s_}{p_}{tok}"))
+    for tok in (ncarried if tier == "thorough" else r.sample(ncarried, min(len(ncarried), 4))):
+        s_ = r.choice(["Glc", "Gal", "Man"])
+        lf.append((f"2-N-{tok}-{s_}", f"{s_}2{tok}"))
+    lf = [(a_, b_) for a_, b_ in lf if orc.drv.call("accepts", a_) == "1" and orc.drv.call("accepts", b_) == "1"]
+    flat = sorted(set(x for c_ in lf for x in c_))
+    lo = dict(zip(flat, chem.convert_all(flat)))
+    stats["long_form"] = 0
+    for a_, b_ in lf:
+        x, y = lo[a_]["smiles"], lo[b_]["smiles"]
+        if not y:
+            continue
+        stats["long_form"] += 1
+        report.case(a_, True)
+        if not x or not orc.same(x, y):
+            report.fail({"site": "reactor", "kind": "long-form-differs", "token": a_.split("-")[2]},
+                        {"long_form": a_, "compact_form": b_, "results": [x, y],
+                         "problem": "the long notation of a modification does not give the molecule of the compact token"})
     orc.close()
     if broken and not report.violations:
         report.fail({"site": "proof", "kind": "obligation-broken"},
